@@ -36,6 +36,9 @@ CLAIMS = {
     "C15": ("spec/Walk.tla, MC_Walk.tla",
             "TLC checks C15_ProcessedIffNotMatched, C15_NotDescended, C15_ExcludedNotScanned, C15_WholeInputExcluded for every pattern set of the menu and every listing permutation; replayed behaviours compare the documented files with the non-excluded ones and the directories listed (os.walk roots, os.scandir calls) with the excluded set.",
             "gitignore semantics of pathspec trusted; pattern forms: name, name/, *.ext, **/name, absolute path", "4 C15"),
+    "C16": ("spec/Config.tla, MC_C16.tla",
+            "TLC checks C16_Precedence, C16_WrongTypeRejected, C16_ExcludesUnion on the source-stacking machine (Configuration, set_file, set_args, get, all_contents) for every option x every subset of sources, and pairs of options; every behaviour is replayed through the real cminx.main with synthesised YAML sources and the Settings object handed to cminx.document compared field by field, incl. exclude-filter concatenation, output-directory resolution and rejection of wrong-typed values.",
+            "wrong types only in the effective source; StrSeq leniency and logging section not judged", "4 C16"),
     "C18": ("spec/Walk.tla (effect log), MC_Walk.tla",
             "TLC checks the effect invariants of the walk specification (C18_NoWritesWithoutOut, C18_NoPrintsWithOut, C18_WritesUnderOut, C18_SortedPerDirectory); each terminal behaviour is run through the real cminx.main with and without -o in fresh sandboxes with complete before/after snapshots (paths and bytes, HOME included) and captured stdout; created/changed/deleted paths are compared with the output directory and stdout with the concatenation of the written pages.",
             "diagnostics-free inputs; output styles abs/relative/parent/inside-top/inside-sub; four settings variants", "4 C18"),
